@@ -8,8 +8,11 @@ for ONE column (one batch member, one init vector).  Core Lean only.
     q_0_vec = init_vecs / norm(init_vecs);  q_mat[0].copy_(q_0_vec)                 -- `init`
     r_vec = matmul_closure(q_0_vec);  alpha_0 = q_0_vec.mul(r_vec).sum(-2)
     r_vec.sub_(alpha_0.mul(q_0_vec));  beta_0 = norm(r_vec)
-    t_mat[0,0] = alpha_0; t_mat[0,1] = beta_0; t_mat[1,0] = beta_0                  -- IndexError if num_iter = 1 (D14)
-    q_mat[1].copy_(r_vec.div_(beta_0))
+    t_mat[0,0] = alpha_0
+    if num_iter > 1 and torch.sum(beta_0.abs() > 1e-6) > 0:                         -- `lanczosTridiag` (guard)
+        t_mat[0,1] = beta_0; t_mat[1,0] = beta_0;  q_mat[1].copy_(r_vec.div_(beta_0))
+    else: num_iter = 1
+    k = 0
     for k in range(1, num_iter):                                                    -- `loop` / `body`
         q_prev = q_mat[k-1]; q_curr = q_mat[k]; beta_prev = t_mat[k, k-1]
         r_vec = matmul_closure(q_curr) - q_prev.mul(beta_prev)
@@ -84,8 +87,9 @@ structure Params (α : Type) where
   extra : Nat
   /-- the `1e-6` of `beta_curr.abs() > 1e-6` -/
   breakTol : α
-  /-- the writes `t_mat[0, 1]`, `t_mat[1, 0]`, `q_mat[1]` are guarded by `num_iter > 1`
-  (false for the code as it is: `num_iter = 1` ends in IndexError, D14) -/
+  /-- the writes `t_mat[0, 1]`, `t_mat[1, 0]`, `q_mat[1]` are guarded by
+  `num_iter > 1 and torch.sum(beta_0.abs() > 1e-6) > 0` (true for the code as it is now; false = the code
+  before the fix of D14: `num_iter = 1` ends in IndexError and `β_0` is never tested) -/
   guardsSingle : Bool := false
 
 inductive Err
@@ -200,16 +204,26 @@ def Out.Q (o : Out α n) : Mat α n o.count := fun i j => (o.q.get j.1)[i]
 /-- `t_mat[:num_iter, :num_iter]` -/
 def Out.T (o : Out α n) : Mat α o.count o.count := fun i j => (o.t.get i.1).get j.1
 
-/-- `lanczos_tridiag(matmul_closure, max_iter, …, init_vecs=v, tol=p.tol)` on an `n × n` operator. -/
+/-- `lanczos_tridiag(matmul_closure, max_iter, …, init_vecs=v, tol=p.tol)` on an `n × n` operator.
+
+Code as it is now (`p.guardsSingle = true`, generated from the source):
+    if num_iter > 1 and torch.sum(beta_0.abs() > 1e-6) > 0:  <writes at index 1>   else: num_iter = 1
+    k = 0;  for k in range(1, num_iter): …;  num_iter = k + 1
+so a budget of one iteration (`max_iter = 1`, 1×1 operator) or a start vector that already is an eigenvector
+(`β_0` not above the threshold) returns the single column `q_0` and `T = [α_0]`.
+`p.guardsSingle = false` is the code BEFORE commit c712633: no test of `β_0`, IndexError for `num_iter = 1`. -/
 def lanczosTridiag [Add α] [Sub α] [Mul α] [Div α] [Zero α] (ops : NumOps α) (p : Params α)
     (amul : Vec α n → Vec α n) (maxIter : Nat) (v : Vec α n) : Except Err (Out α n) :=
   let numIter := min maxIter n
   if numIter = 0 then .error .indexError          -- `q_mat[0]` of an empty buffer
-  else if numIter = 1 then
-    if p.guardsSingle then
-      let s := (init0 ops amul numIter v).1
-      .ok { count := 1, q := s.q, t := s.t, passes := 0 }
-    else .error .indexError                       -- `t_mat[0, 1]`
+  else if p.guardsSingle then
+    let i0 := init0 ops amul numIter v
+    if decide (1 < numIter) && ops.gt (ops.abs i0.2.2) p.breakTol then
+      let r := loop ops p amul numIter (numIter - 1) 1 (init ops amul numIter v)
+      .ok { count := r.1, q := r.2.q, t := r.2.t, passes := r.2.passes }
+    else
+      .ok { count := 1, q := i0.1.q, t := i0.1.t, passes := 0 }
+  else if numIter = 1 then .error .indexError     -- `t_mat[0, 1]` (previous code, D14)
   else
     let r := loop ops p amul numIter (numIter - 1) 1 (init ops amul numIter v)
     .ok { count := r.1, q := r.2.q, t := r.2.t, passes := r.2.passes }
